@@ -136,13 +136,18 @@ func solve(dir, name, script string, timeoutS int) SolveResult {
 }
 
 // solveAgree (thorough tier) runs every back end on the script and requires their definite answers to agree.
-func solveAgree(dir, name, script string, timeoutS int) SolveResult {
+func solveAgree(dir, name, script string, timeoutS int, skipSlow bool) SolveResult {
 	path := filepath.Join(dir, name+".smt2")
 	os.WriteFile(path, []byte(script), 0o644)
 	ctx, cancel := context.WithTimeout(context.Background(), time.Duration(timeoutS+2)*time.Second)
 	defer cancel()
 	ch := make(chan SolveResult, len(solvers))
-	for _, s := range solvers {
+	use := solvers
+	if skipSlow {
+		// z3 4.8.12 needs ~2 s per script: on very large obligation sets it is run on a sample only
+		use = [][]string{solvers[0], solvers[2]}
+	}
+	for _, s := range use {
 		go func(s []string) {
 			args := []string{}
 			for _, a := range s[1:] {
@@ -167,7 +172,7 @@ func solveAgree(dir, name, script string, timeoutS int) SolveResult {
 		}(s)
 	}
 	var results []SolveResult
-	for range solvers {
+	for range use {
 		results = append(results, <-ch)
 	}
 	best := SolveResult{Status: "unknown"}
